@@ -37,6 +37,37 @@ def decLine (f : Framing) (cap : Nat) (bs : Bytes) : String :=
           | .error e => out ++ s!" | dec2 -1 {e.toString} -"
           | .ok (m2, n2) => out ++ s!" | dec2 {n2} ok {fmtMsg (canonTcp f m2)}"
 
+/-- Receive paths: every frame / datagram is decoded on its own (pooled unmarshal of a private copy), so what the
+application sees is the decoded input, whatever is read afterwards.  `rx k | m0 on entry | m0 | m1 | …`. -/
+def rxLine (f : Framing) (inputs : List String) : String :=
+  let msgs := inputs.filterMap fun h =>
+    match Driver.parseHex? h with
+    | some bs =>
+      match unmarshalWithDecoderN (coderOf f) newMessage bs with
+      | .ok (_, st) => some (fmtMsg (canonTcp f st.msg))
+      | .error _ => none
+    | none => none
+  match msgs with
+  | [] => "rx 0"
+  | m0 :: _ => s!"rx {msgs.length} | {m0} | " ++ " | ".intercalate msgs
+
+/-- Judge of the receive paths: each delivered message must equal the reference parse of the bytes it was sent as. -/
+def rxJudge (f : Framing) (inputs : List String) (out : List String) : String :=
+  let expected := inputs.filterMap fun h =>
+    match Driver.parseHex? h with
+    | some bs => (refParse f bs).map (·.1)
+    | none => none
+  match splitBar out with
+  | ("rx" :: _) :: obs =>
+    let observed := obs.map fun o => (parseMsg? o).map (·.1)
+    let want := match expected with
+      | [] => []
+      | m0 :: _ => m0 :: expected
+    if observed.length ≠ want.length then "skip"
+    else if (observed.zip want).all (fun (o, w) => o == some w) then "ok"
+    else "violates owns-its-bytes"
+  | _ => "bad-op"
+
 def modelLine (fields : List String) : String :=
   match fields with
   | ["dec", c, cap, hex] =>
@@ -58,6 +89,14 @@ def modelLine (fields : List String) : String :=
       | .error e => s!"pdec -1 {e.toString} -"
       | .ok (n, st) => s!"pdec {n} ok {fmtMsg (canonTcp f st.msg)} alias=ok"
     | _, _, _ => "bad-op"
+  | "rxtcp" :: _split :: na :: nb :: frames =>
+    match na.toNat?, nb.toNat? with
+    | some na, some nb => if frames.length = na + nb then rxLine .tcp frames else "bad-op"
+    | _, _ => "bad-op"
+  | "rxudp" :: n :: dgrams =>
+    match n.toNat? with
+    | some n => if dgrams.length = n then rxLine .udp dgrams else "bad-op"
+    | none => "bad-op"
   | _ => "bad-op"
 
 def worst (vs : List Verdict) : Verdict :=
@@ -113,6 +152,8 @@ def judgeLine (inp out : List String) : String :=
         let v2 : Verdict := if alias = "alias=ok" then .ok else .violates "no-aliasing"
         (worst [v1, v2]).toString
     | _, _, _ => "bad-op"
+  | "rxtcp" :: _split :: _na :: _nb :: frames, _ => rxJudge .tcp frames out
+  | "rxudp" :: _n :: dgrams, _ => rxJudge .udp dgrams out
   | _, _ => "bad-op"
 
 def splitArrow (fields : List String) : List String × List String :=
